@@ -244,6 +244,10 @@ func (s *c01Summ) noWriteOnEdge(e an.CondEdge, call *ssa.Call) bool {
 }
 
 func runC01(c *an.Ctx) {
+	c01Writers(c)
+	// ---- R13: every wire writer normalises, packs and writes the response it was given, once
+	c.Floor("C01-R13", 3)
+	c.Borrow("C01-R13", runC08, func(o an.Obligation) bool { return o.Rule == "C08-R1" })
 	c.Floor("C01-R12", 2)
 	mainmwFilterSteps(c, "C01-R12")
 	c01Unvalidated(c)
@@ -877,3 +881,92 @@ func c01Unvalidated(c *an.Ctx) {
 // c01ValidatedOnly lists the functions reached from the server base that are
 // only given messages with exactly one question, with the reason.
 var c01ValidatedOnly = map[string]string{}
+
+// c01Writers holds the tables of the plain-DNS wire writers: the response given
+// to WriteMsg is normalised, packed and written exactly once, and every failure
+// is reported to the caller.
+func c01Writers(c *an.Ctx) {
+	c.Floor("C01-R14", 2)
+	for _, w := range []struct{ fn, pack, write, proto string }{
+		{"dnsserver.(*udpResponseWriter).WriteMsg", "dns.Msg).PackBuffer", "netext.WriteToSession", "udp"},
+		{"dnsserver.(*tcpResponseWriter).WriteMsg", "dnsserver.packWithPrefix", "p0.conn.Write", "tcp"},
+	} {
+		w := w
+		decide(c, "C01-R14", w.fn, an.DecideCfg{
+			Dom: an.Domain{"packerr": an.Bools, "writeerr": an.Bools},
+			Inline: func(f *ssa.Function) bool {
+				k := an.FnKey(f)
+				return k == "dnsserver.withWriteDeadline" || strings.HasPrefix(k, w.fn+"$") || strings.HasPrefix(k, "dnsserver.withWriteDeadline$")
+			},
+			OnCall: func(it *an.Interp, name string, args []an.AV) (an.AV, bool) {
+				switch {
+				case strings.HasSuffix(name, "dnsserver.MustServerInfoFromContext"):
+					return an.NonNil("si"), true
+				case strings.HasSuffix(name, "dnsserver.normalize"), strings.HasSuffix(name, "dnsserver.normalizeTCP"), strings.HasSuffix(name, ").addTCPKeepAlive"):
+					return an.Nil(), true
+				case strings.HasSuffix(name, ".respPool.Get"), strings.Contains(name, "syncutil.Pool") && strings.HasSuffix(name, ".Get"):
+					return an.NonNil("bufptr"), true
+				case strings.Contains(name, "syncutil.Pool") && strings.HasSuffix(name, ".Put"):
+					return an.Nil(), true
+				case strings.HasSuffix(name, w.pack):
+					if it.Feature("packerr").IsTrue() {
+						return an.AV{Kind: an.KTuple, Tup: []an.AV{an.Nil(), an.NonNil("packErr")}}, true
+					}
+					return an.AV{Kind: an.KTuple, Tup: []an.AV{an.NonNil("packed"), an.Nil()}}, true
+				case strings.HasSuffix(name, w.write):
+					e := an.Nil()
+					if it.Feature("writeerr").IsTrue() {
+						e = an.NonNil("writeErr")
+					}
+					return an.AV{Kind: an.KTuple, Tup: []an.AV{an.Sym("n"), e}}, true
+				case name == "context.WithTimeout":
+					return an.AV{Kind: an.KTuple, Tup: []an.AV{an.NonNil("tctx"), an.NonNil("cancel")}}, true
+				case strings.HasSuffix(name, ".Deadline"):
+					return an.AV{Kind: an.KTuple, Tup: []an.AV{an.Sym("dl"), an.CBool(true)}}, true
+				case strings.HasSuffix(name, ".SetWriteDeadline"):
+					return an.Nil(), true
+				case name == "fmt.Errorf":
+					return an.NonNil("wrapped"), true
+				}
+				return an.AV{}, false
+			},
+			Expect: func(f an.Features, o an.AOutcome) string {
+				if o.Exit != "return" || len(o.Ret) != 1 {
+					return "an error result"
+				}
+				var packs, writes []string
+				norm, pack := -1, -1
+				for i, e := range o.Effects {
+					if e.Kind != "call" {
+						continue
+					}
+					switch {
+					case strings.HasSuffix(e.Name, "dnsserver.normalize") || strings.HasSuffix(e.Name, "dnsserver.normalizeTCP"):
+						norm = i
+					case strings.HasSuffix(e.Name, w.pack):
+						pack = i
+						packs = append(packs, strings.Join(e.Args, ","))
+					case strings.HasSuffix(e.Name, w.write):
+						writes = append(writes, strings.Join(e.Args, ","))
+					}
+				}
+				if norm < 0 || pack < norm || len(packs) != 1 || !strings.HasPrefix(packs[0], "p3") {
+					return "the given response normalised and then packed once; got packs " + strings.Join(packs, " / ")
+				}
+				if f.B("packerr") {
+					if len(writes) == 0 && o.Ret[0].Kind != an.KNil {
+						return ""
+					}
+					return "a packing error reported and nothing written"
+				}
+				if len(writes) != 1 || !strings.Contains(writes[0], "nonnil:packed") {
+					return "the packed bytes written exactly once; got " + strings.Join(writes, " / ")
+				}
+				if f.B("writeerr") != (o.Ret[0].Kind != an.KNil) {
+					return fmt.Sprintf("a write failure reported to the caller (error=%v); got %s", f.B("writeerr"), o.RetString())
+				}
+				return ""
+			},
+		})
+	}
+}
